@@ -82,6 +82,8 @@ pub enum Share {
     Clone,
     /// threads share one `Arc<ProgressBar>` (no clone of the bar itself exists)
     ArcRef,
+    /// every thread works on a handle it got from `downgrade().upgrade()`
+    Weak,
 }
 
 #[derive(Clone, Debug)]
@@ -102,7 +104,7 @@ pub struct Program {
 
 impl Program {
     pub fn describe(&self) -> String {
-        format!("{}{}{}{}{} {:?}", if self.start_hidden { "hidden-at-first " } else { "" }, if self.no_len { "no-length " } else { "" }, if self.multi { "multi " } else { "single " }, if self.ticker { "ticker-on " } else { "" }, if self.share == Share::ArcRef { "shared-by-reference" } else { "clones" }, self.threads)
+        format!("{}{}{}{}{} {:?}", if self.start_hidden { "hidden-at-first " } else { "" }, if self.no_len { "no-length " } else { "" }, if self.multi { "multi " } else { "single " }, if self.ticker { "ticker-on " } else { "" }, match self.share { Share::ArcRef => "shared-by-reference", Share::Weak => "upgraded-weak-handles", Share::Clone => "clones" }, self.threads)
     }
     pub fn history(&self) -> Vec<String> {
         let mut v = vec![format!("{}{}{} bar, steady ticker {}, handles shared as {:?}", if self.start_hidden { "created hidden, " } else { "" }, if self.no_len { "length-less " } else { "" }, if self.multi { "member of a 2-bar MultiProgress" } else { "standalone" }, if self.ticker { "enabled before the threads start" } else { "off" }, self.share)];
@@ -162,6 +164,18 @@ pub fn programs_for(family: &str, tier: &str) -> Vec<Program> {
                                 }
                             }
                         }
+                    }
+                }
+            }
+            // the calls that touch the ticker slot, made through handles obtained from a WeakProgressBar
+            {
+                let slot: Vec<Call> = vec![Call::Tick, Call::Update, Call::Enable, Call::Disable, Call::Finish];
+                for ticker in [false, true] {
+                    for i in 0..slot.len() {
+                        for j in i..slot.len() {
+                            v.push(Program { hz: false, start_hidden: false, no_len: false, family: "C08", multi: false, ticker, share: Share::Weak, threads: vec![vec![slot[i]], vec![slot[j]]] });
+                        }
+                        v.push(Program { hz: false, start_hidden: false, no_len: false, family: "C08", multi: false, ticker, share: Share::Weak, threads: vec![vec![slot[i], Call::Disable]] });
                     }
                 }
             }
@@ -698,7 +712,11 @@ pub fn execute(p: &Program, timeouts: usize, obs: &Obs) {
     for calls in p.threads.iter().cloned() {
         let w = world.clone();
         let sh2 = sh.clone();
-        let own: Option<ProgressBar> = if p.share == Share::Clone { Some((*world.a).clone()) } else { None };
+        let own: Option<ProgressBar> = match p.share {
+            Share::Clone => Some((*world.a).clone()),
+            Share::Weak => Some(world.a.downgrade().upgrade().expect("the bar is alive")),
+            Share::ArcRef => None,
+        };
         let by_ref = shared_ref.clone();
         handles.push(thread::spawn(move || {
             sh2.worker_ids.lock().unwrap().push(tid());
